@@ -9,6 +9,7 @@
 (*        are embedded; BB has an initial condition booked by sector id and an income *)
 (*        exclusion (matched by id)                                                   *)
 (*   A    block without user function;  B  block that calls the user function f       *)
+(*        (registered per solver with body f1 or f2); A and B share variable names     *)
 EXTENDS Integers, Sequences
 
 MC_Models  == {"SIM", "TWO"}
@@ -18,6 +19,7 @@ MC_Solvers1 == {"s1"}
 MC_Solvers2 == {"s1", "s2"}
 MC_LogNames == {"log", "eqn", "timeseries", "step", "steadystate_0"}
 MC_Trace2 == {0, 1}
+MC_FuncBodies == {"f1", "f2"}
 MC_Trace3 == {0, 1, 3}
 
 MC_Shape ==
@@ -40,5 +42,6 @@ MC_Shape ==
 
 MC_BlockInfo ==
     [A |-> [vars |-> {"LAG_x", "a", "g", "t", "x", "y"}, early |-> {"g"}, func |-> FALSE, horizon |-> 4],
-     B |-> [vars |-> {"LAG_u", "h", "t", "u", "v", "w"}, early |-> {"h"}, func |-> TRUE,  horizon |-> 4]]
+     B |-> [vars |-> {"LAG_x", "g", "t", "v", "w", "x"}, early |-> {"g"}, func |-> TRUE,  horizon |-> 4]]
+     \* x, LAG_x, g carry the same NAME in both blocks; x and g are defined differently
 =============================================================================
